@@ -58,8 +58,8 @@ def run_check(tier, seed, replay=None):
     for tr in (trace, streams):
         for rec in read_ndjson(tr + ".cases"):
             cases[(tr, rec["run"])] = rec
-        acc, rej, states = validate_runs("Trace_Codec", wd, tr, invariants=["RunAtMostOne"], timeout=3000,
-                                         heap="8g")
+        acc, rej, states = validate_runs("Trace_Codec", wd, tr, invariants=["RunAtMostOne"], timeout=6000,
+                                         heap="8g", view="TraceView")
         c.cov["traces_validated_against_impl"] += acc
         c.cov["states"] += states
         c.cov["transitions"] += states
